@@ -8,9 +8,9 @@ COMMON_TRUSTED = [
     "check: the real code is run by /verif/harness (Rust, cfg amiquip_verif probes) and judged inside "
     "Coq by the model and by the executable spec (coq/Check)",
     "coq/Gen/Consts.v regenerated from the compiled crate on every run",
-    "coq/Gen/Src.v translated from the source text on every run by tools/rs2v.py (make_tune_ok, Heartbeat::fire, "
-    "Channel0Handle::new; the meaning given to the Rust subset is stated in that file and trusted) and proved equal "
-    "to the hand-written models (C15_source_is_model, C17_fire_source_is_model, C02_limit_source_is_model)",
+    "coq/Gen/Src*.v translated from the source text on every run by tools/rs2v.py (make_tune_ok, Heartbeat::fire, "
+    "Channel0Handle::new, SealableOutputBuffer::{append, push_method, push_heartbeat, seal}; the meaning given to the Rust subset is stated in that file and trusted) and proved equal "
+    "to the hand-written models (C15_source_is_model, C17_fire_source_is_model, C02_limit_source_is_model, C08_seal_source_is_model)",
     "no extraction is used: the model is evaluated by the kernel's VM",
 ]
 
